@@ -641,10 +641,10 @@ func cabChecksum(b []byte, seed uint32) uint32 {
 // ---- script texts ------------------------------------------------------------------------------
 
 type psShape struct {
-	ID    string `json:"id"`
-	Ext   string `json:"ext"`
-	Enc   string `json:"encoding"` // ascii | utf8bom | utf16le
-	Text  string `json:"text"`
+	ID    string   `json:"id"`
+	Ext   string   `json:"ext"`
+	Enc   string   `json:"encoding"` // ascii | utf8bom | utf16le
+	Text  string   `json:"text"`
 	Class []string `json:"-"`
 }
 
